@@ -61,8 +61,12 @@ def product_ob(prog, mkind, fkind, op, update_full, batch):
             res = I.call_method(u, "__mul__", [f])
         else:
             res = I.call_method(u, op, [f], dict(update_full=update_full))
-        if res.cls != "GaussianMeasure":
-            raise Refuted(f"product returned a {res.cls}", anchor)
+        if not I.prog.is_subclass(res.cls, "GaussianMeasure") or I.prog.is_subclass(res.cls, "GaussianPDF"):
+            raise Refuted(f"product returned a {res.cls} (an un-normalised Gaussian measure is expected)", anchor)
+        from .common import diagonal_class_diffs
+        dg = diagonal_class_diffs(res)
+        if dg:
+            raise Refuted(f"product returned a {res.cls} whose precision is not diagonal: its integrals use the diagonal inverse", anchor, dg)
         got = obj_ln(res, x)
         # the result is a batch of R components in every field (otherwise a following product()/slice() reduces a broadcast
         # size-1 axis instead of the components)
@@ -145,6 +149,13 @@ def obligations(tier):
     for k in FACTOR_KINDS:
         obs.append(evaluate_ob(k, False))
         obs.append(evaluate_ob(k, True))
+    for fk in FACTOR_KINDS:
+        for mk in ("diag", "diagpdf"):
+            # diagonal receivers: the product is a general GaussianMeasure (an override that stays in the diagonal family is refuted)
+            obs.append(product_ob(prog, mk, fk, "*", False, "R1xR2"))
+            for uf in (False, True):
+                obs.append(product_ob(prog, mk, fk, "multiply", uf, "R1xR2"))
+                obs.append(product_ob(prog, mk, fk, "hadamard", uf, "R/R"))
     for fk in FACTOR_KINDS:
         for mk in MEASURE_KINDS:
             obs.append(product_ob(prog, mk, fk, "*", False, "R1xR2"))
